@@ -122,10 +122,48 @@ func c01(p *Prog, r *Report) {
 	}
 	if fn := anchor(p, r, R2, "(~/tokens/type1.BasicPrivateTokenRequestState).FinalizeToken"); fn != nil {
 		n := "conv<int>(call<(github.com/cloudflare/circl/group.Group).Params>(load(global:github.com/cloudflare/circl/group.P384)).CompressedElementLength)"
+		// the response may also be split by a cryptobyte reader over it: the
+		// first (and only) read ReadBytes(&elem, Ne) yields resp[:Ne] and leaves
+		// resp[Ne:] in the reader
+		rdElem, rdRest := "", ""
+		{
+			s := p.NewSym(fn)
+			for _, site := range sitesIn(fn, func(nm string) bool { return nm == cbString+"ReadBytes" }) {
+				cc := site.Common()
+				rd, isAlloc := cc.Args[0].(*ssa.Alloc)
+				if !isAlloc || s.Of(cc.Args[2]).String() != n {
+					continue
+				}
+				// the reader holds the whole response and nothing was read before
+				okInit, nCalls := false, 0
+				for _, ref := range *rd.Referrers() {
+					switch x := ref.(type) {
+					case *ssa.Store:
+						if x.Addr == ssa.Value(rd) && s.Of(x.Val).String() == "param:1" {
+							okInit = true
+						}
+					case ssa.CallInstruction:
+						if strings.HasPrefix(calleeName(x.Common()), cbString) && dominates(x, site) && x != ssa.Instruction(site.(*ssa.Call)) {
+							nCalls++
+						}
+					}
+				}
+				if okInit && nCalls == 0 {
+					ct := s.callTerm(site).String()
+					rdElem, rdRest = "out<1>("+ct+")", "out<0>("+ct+")"
+				}
+			}
+		}
 		p.RequireOnSuccess(r, R2, fn, CallReq{Desc: "element.UnmarshalBinary(resp[:Ne]) ok", Callee: "(github.com/cloudflare/circl/group.Element).UnmarshalBinary", Check: func(t *Term) string {
+			if rdElem != "" && arg(t, 1).String() == rdElem {
+				return ""
+			}
 			return want("element bytes", arg(t, 1), "slice(param:1, const:0, "+n+")")
 		}})
 		p.RequireOnSuccess(r, R2, fn, CallReq{Desc: "proof.UnmarshalBinary(P384, resp[Ne:]) ok", Callee: "(*github.com/cloudflare/circl/zk/dleq.Proof).UnmarshalBinary", Check: func(t *Term) string {
+			if rdRest != "" && (arg(t, 2).String() == rdRest || arg(t, 2).String() == "conv<[]byte>("+rdRest+")") {
+				return want("group", arg(t, 1), "load(global:github.com/cloudflare/circl/group.P384)")
+			}
 			return firstNonEmpty(want("group", arg(t, 1), "load(global:github.com/cloudflare/circl/group.P384)"), want("proof bytes", arg(t, 2), "slice(param:1, "+n+", const:nil)"))
 		}})
 	}
